@@ -24,10 +24,10 @@ def literal_bytes():
         ex, st = r.ex, r.st
         HDR, NAME, DATA = z3.Const('HEADER', B), z3.Const('FILENAME_UTF8', B), z3.Const('CONTENTS', B)
         FMT, EPOCH = z3.Ints('format_octet epoch')
-        st.pc += [FMT >= 0, FMT < 128, EPOCH >= 0, EPOCH < 2 ** 32, z3.Length(NAME) < 256]
+        st.pc += [FMT >= 0, FMT < 256, EPOCH >= 0, EPOCH < 2 ** 32, z3.Length(NAME) < 256]
         me = E.VObj(P + 'LiteralData', 'pkt')
         mtime = E.VExt('datetime', ())
-        r.set('pkt', 'format', E.VStr(z=z3.Unit(FMT)))
+        r.set('pkt', 'format', E.VStr(z=z3.Unit(FMT), cp=True))       # one character, any code point below 256 (as parse leaves it)
         r.set('pkt', 'filename', E.VStr(z=NAME))          # str modelled by its UTF-8 octets (str.encode is external)
         r.set('pkt', '_mtime', mtime)
         r.set('pkt', '_contents', ex.new_buf(st, DATA))
@@ -60,7 +60,7 @@ def literal_parse():
         me = E.VObj(P + 'LiteralData', 'pkt')
         _hdr(r, HL)
         fnl = OLD[1]
-        st.pc += [z3.Length(OLD) >= 2, OLD[0] >= 0, OLD[0] < 128, fnl >= 0, fnl < 256, HL >= 6 + fnl, z3.Length(OLD) >= HL]
+        st.pc += [z3.Length(OLD) >= 2, OLD[0] >= 0, OLD[0] < 256, fnl >= 0, fnl < 256, HL >= 6 + fnl, z3.Length(OLD) >= HL]
         buf = ex.new_buf(st, OLD)
         ex.hooks[('ext', 'datetime.fromtimestamp')] = lambda ex, st, o, a: [(st, E.VExt('datetime', (a[0],)))]
         VALID = z3.Function('VALID[utf-8]', B, z3.BoolSort())
@@ -74,7 +74,8 @@ def literal_parse():
                 continue
             g = lambda f: s.heap.get(('pkt', f))
             fmt, name, mt, data = g('format'), g('filename'), g('_mtime'), g('_contents')
-            r.oblige(s, 'format-octet/p%d' % pi, z3.BoolVal(isinstance(fmt, E.VStr)))
+            r.oblige(s, 'format-is-the-character-with-the-code-of-the-first-octet/p%d' % pi,
+                     fmt.z == z3.Unit(OLD[0]) if isinstance(fmt, E.VStr) and fmt.z is not None and fmt.cp else z3.BoolVal(False))
             DEC = z3.Function('DECODE[utf-8]', B, B)
             r.oblige(s, 'file-name-is-the-announced-octets-read-as-utf-8/p%d' % pi,
                      z3.And(z3.BoolVal(isinstance(name, E.VStr) and name.z is not None), name.z == DEC(z3.Extract(OLD, 2, fnl)) if isinstance(name, E.VStr) and name.z is not None else z3.BoolVal(False)))
@@ -317,3 +318,37 @@ def s2k_roundtrip(spec):
 def scenarios():
     return [literal_bytes(), literal_parse(), simple_body('SKEData', 'ct', 0), simple_body('IntegrityProtectedSKEDataV1', 'ct', 1), simple_body('UserID', 'uid', 0),
             onepass_parse(), signature_parse(), signature_bytes()] + [s2k_roundtrip(s) for s in (0, 1, 3)]
+
+
+def ecpoint_from_values():
+    """ECPoint.from_values (RFC 6637 section 6: each coordinate occupies the curve's field size in whole octets)"""
+    label = 'C08/ECPoint.from_values'
+    F = 'pgpy.packet.fields.'
+
+    def gen(repo):
+        r = scn.Run(repo, F + 'ECPoint', 'from_values', label)
+        ex, st = r.ex, r.st
+        BITS = z3.Int('curve_bits')
+        st.pc += [BITS >= 1, BITS <= 4096]
+        X, Y, FORM = E.VExt('x', ()), E.VExt('y', ()), E.VExt('point-format', ())
+        r.hook(F + 'ECPoint', '__call__', lambda ex, st, c, a: [(st, E.VObj(F + 'ECPoint', 'pt'))])
+        for pi, (s, v) in enumerate(r.call(E.VClass(F + 'ECPoint'), [E.VInt(BITS), FORM, X, Y])):
+            if isinstance(v, E.Raise):
+                r.oblige(s, 'safety(%s)/p%d' % (v.exc, pi), z3.BoolVal(False), v.where)
+                continue
+            n = s.heap.get(('pt', 'bytelen'))
+            n = ex.as_int(n) if isinstance(n, E.VInt) else None
+            r.oblige(s, 'coordinate-width-is-the-least-number-of-octets-holding-the-field-size/p%d' % pi,
+                     z3.And(8 * n >= BITS, 8 * (n - 1) < BITS) if n is not None else z3.BoolVal(False))
+            r.oblige(s, 'format-and-coordinates-stored-as-given/p%d' % pi,
+                     z3.BoolVal(s.heap.get(('pt', 'format')) is FORM and s.heap.get(('pt', 'x')) is X and s.heap.get(('pt', 'y')) is Y
+                                and isinstance(v, E.VObj) and v.ref == 'pt'))
+        return r.result()
+    return Scenario(label, F + 'ECPoint.from_values', gen, props=('C08', 'C03', 'C18'))
+
+
+_base_scn_ec = scenarios
+
+
+def scenarios():
+    return _base_scn_ec() + [ecpoint_from_values()]
